@@ -5,10 +5,11 @@ use crate::rt::{Cfg, Policy};
 use serde_json::{json, Value};
 
 pub mod parallel;
+pub mod refstore;
 pub mod selftest;
 
 pub fn all() -> Vec<&'static dyn Scenario> {
-    vec![&selftest::SelfTest, &parallel::Parallel]
+    vec![&selftest::SelfTest, &parallel::Parallel, &refstore::RefStore]
 }
 
 /// Which scenario decides a property.
